@@ -20,6 +20,31 @@ BUILD = os.path.join(VERIF, ".build")
 REPLAYS = os.path.join(VERIF, "replays")
 EVIDENCE = os.path.join(VERIF, "evidence")
 REPO = "/repo"
+
+# Development aid (mutation campaign): VERIF_REPO=<scratch worktree> runs the same checks against
+# another checkout of the library without touching /repo, /verif/evidence or the regular build
+# directories. The registered commands never set it.
+_ALT = os.environ.get("VERIF_REPO")
+if _ALT and os.path.abspath(_ALT) != "/repo":
+    REPO = os.path.abspath(_ALT)
+    _tag = "alt-" + hashlib.sha1(REPO.encode()).hexdigest()[:8]
+    BUILD = os.path.join(VERIF, ".build", _tag)
+    _h = os.path.join(BUILD, "harness")
+    os.makedirs(_h, exist_ok=True)
+    with open(os.path.join(HARNESS, "Cargo.toml")) as _f:
+        _toml = _f.read().replace('path = "/repo"', 'path = "%s"' % REPO)
+    if not os.path.exists(os.path.join(_h, "Cargo.toml")) or open(os.path.join(_h, "Cargo.toml")).read() != _toml:
+        with open(os.path.join(_h, "Cargo.toml"), "w") as _f:
+            _f.write(_toml)
+    for _n in ("src", "compile_fail"):
+        _l = os.path.join(_h, _n)
+        if not os.path.islink(_l):
+            os.symlink(os.path.join(HARNESS, _n), _l)
+    if not os.path.exists(os.path.join(_h, "Cargo.lock")):
+        shutil.copy(os.path.join(HARNESS, "Cargo.lock"), os.path.join(_h, "Cargo.lock"))
+    HARNESS = _h
+    REPLAYS = os.path.join(BUILD, "replays")
+    EVIDENCE = os.path.join(BUILD, "evidence")
 GUARD = "--cfg vm_memory_verif"
 TARGET = "x86_64-unknown-linux-gnu"
 
@@ -273,23 +298,23 @@ class Run:
             line = m.group(0)
             # find first in-repo frame after it
             tail = err[m.end():m.end() + 6000]
-            fr = re.search(r"(/repo/src/[\w/]+\.rs):(\d+)", tail)
+            fr = re.search(r"(" + re.escape(REPO) + r"/src/[\w/]+\.rs):(\d+)", tail)
             hf = re.search(r"(src/[\w/]+\.rs):(\d+)", tail)
-            where = fr.group(1).replace("/repo/", "") if fr else (hf.group(1) if hf else "?")
+            where = fr.group(1).replace(REPO + "/", "") if fr else (hf.group(1) if hf else "?")
             self.sanitizer_reports.append(dict(tool="miri", what=re.sub(r"alloc\d+|0x[0-9a-f]+|\d+", "N", line)[:200],
                                                where=where, raw=line[:400]))
         # ASan / TSan
         for m in re.finditer(r"ERROR: AddressSanitizer: ([\w-]+)", err):
             tail = err[m.end():m.end() + 8000]
-            fr = re.search(r"(/repo/src/[\w/]+\.rs):(\d+)", tail)
+            fr = re.search(r"(" + re.escape(REPO) + r"/src/[\w/]+\.rs):(\d+)", tail)
             self.sanitizer_reports.append(dict(tool="asan", what=m.group(1),
-                                               where=fr.group(1).replace("/repo/", "") if fr else "?",
+                                               where=fr.group(1).replace(REPO + "/", "") if fr else "?",
                                                raw=m.group(0)))
         for m in re.finditer(r"WARNING: ThreadSanitizer: ([\w -]+)", err):
             tail = err[m.end():m.end() + 8000]
-            fr = re.search(r"(/repo/src/[\w/]+\.rs):(\d+)", tail)
+            fr = re.search(r"(" + re.escape(REPO) + r"/src/[\w/]+\.rs):(\d+)", tail)
             self.sanitizer_reports.append(dict(tool="tsan", what=m.group(1).strip(),
-                                               where=fr.group(1).replace("/repo/", "") if fr else "?",
+                                               where=fr.group(1).replace(REPO + "/", "") if fr else "?",
                                                raw=m.group(0)))
         if self.tool == "memcheck":
             for m in re.finditer(r"==\d+== (Invalid (?:read|write) of size \d+|Conditional jump or move depends on uninitialised|"
